@@ -140,6 +140,80 @@ pub fn run_case(rng: &mut Rng, nu: usize, tries: usize, script: Option<Vec<usize
     Outcome { stalled, fails, steps: res.trace.len() }
 }
 
+/// A participant that stays pinned and calls try_advance itself several times: the first call may advance
+/// (everybody pinned is at the current epoch), every further call must see the caller itself lagging.
+pub fn run_self_case(rng: &mut Rng, nu: usize) -> Outcome {
+    ebr::set_tuning(64, 64);
+    let collector = Collector::new();
+    let h0 = collector.register();
+    for _ in 0..rng.below(5) {
+        let g = h0.pin();
+        g.flush();
+        drop(g);
+    }
+    let nt = 1 + nu;
+    let mut bodies: Vec<Box<dyn FnOnce() + Send>> = vec![];
+    {
+        let c = collector.clone();
+        bodies.push(Box::new(move || {
+            let h = c.register();
+            sched::arm(true);
+            sched::obs(1, 0, 0);
+            let g = h.pin();
+            let e = ebr::local_info(&g)[3];
+            for _ in 0..4 {
+                sched::obs(1, 5, 0);
+                let _ = ebr::try_advance(&c, &g);
+                let now = ebr::collector_epoch(&c) >> 1;
+                sched::obs(2031, e, now);
+            }
+            sched::obs(1, 1, 0);
+            sched::arm(false);
+            drop(g);
+            drop(h);
+        }));
+    }
+    for u in 0..nu {
+        let c = collector.clone();
+        bodies.push(Box::new(move || {
+            let h = c.register();
+            sched::arm(true);
+            sched::obs(1, 8, u);
+            let g = h.pin();
+            drop(g);
+            drop(h);
+            sched::obs(1, 9, u);
+            sched::arm(false);
+        }));
+    }
+    let mut r2 = Rng::new(rng.next());
+    let mut chooser = move |r: &[usize], step: usize, _t: &[sched::Step]| {
+        if step < nt {
+            return r.iter().position(|&t| t == step).unwrap_or(0);
+        }
+        r2.below(r.len() as u64) as usize
+    };
+    let res = sched::run_observed(bodies, enabled, 50_000, &mut chooser);
+    let mut fails = vec![];
+    let mut stalled = false;
+    for (k, st) in res.trace.iter().enumerate() {
+        for &(site, a, b) in &st.obs {
+            if site == 56 {
+                stalled = true;
+            }
+            if site == 2031 && b > a + 1 {
+                fails.push(format!("step {}: the participant calling try_advance is itself pinned at epoch {} but the global epoch is {}", k, a, b));
+            }
+        }
+    }
+    if res.panicked.iter().any(|&p| p) {
+        fails.push("a thread panicked".to_string());
+    }
+    fails.truncate(1);
+    drop(h0);
+    Outcome { stalled, fails, steps: res.trace.len() }
+}
+
 pub fn run(out_path: &str, seed: u64, thorough: bool, cases: usize) -> (u64, u64, u64) {
     let mut out = Out::create(out_path);
     let mut rng = Rng::new(seed);
@@ -147,7 +221,7 @@ pub fn run(out_path: &str, seed: u64, thorough: bool, cases: usize) -> (u64, u64
     for ci in 0..cases {
         let nu = 2 + rng.below(if thorough { 4 } else { 3 }) as usize;
         let tries = 2 + rng.below(3) as usize;
-        let o = run_case(&mut rng, nu, tries, None);
+        let o = if ci % 5 == 4 { run_self_case(&mut rng, nu - 2) } else { run_case(&mut rng, nu, tries, None) };
         steps += o.steps as u64;
         if o.stalled {
             stalls += 1;
